@@ -99,6 +99,9 @@ def run_one(ch, cfg):
     if link_fault_run:
         mode, echo_ok, onboarded = "bootloader", True, command != "onboard"
         pinkind, answers, any_pin, flag2, bad_attempts = "valid", ["yes"], False, False, 0
+    # seeded only: what the operator plugs back in during the onboarding ceremony is blank (another
+    # dongle, or the wipe did not survive the power cycle) - the unlock that follows must notice
+    comes_back_blank = ch.draw(6, "replug-comes-back-blank") == 1
     devpin = b"Dev1cePin"[:8]
     seed = ch.bytes(6, "devseed")
     log, clock = EventLog(), Clock()
@@ -174,6 +177,13 @@ def run_one(ch, cfg):
             typed = typed + [eff]          # the operator types it again for the unlock that follows
     op.getpass_script = list(typed)
     replug = getattr(dev, "replug", None)
+    if comes_back_blank and replug is not None and command == "onboard":
+        _plain_replug = replug
+
+        def replug():
+            _plain_replug()
+            dev.onboarded = False
+            dev.pin = None
     op.stdin_script = [(a, None) for a in answers] + [("", replug)]
     start = {"onboarded": dev.onboarded, "pin": dev.pin, "mode": dev.mode,
              "locked": getattr(dev, "locked", None)}
@@ -271,7 +281,7 @@ def run_one(ch, cfg):
             viol.append(("pin/policy", desc + " sent %s PIN %r" % (kind, p)))
     # ---- V5: when the preconditions hold the operation is carried out
     good_pin = pin is not None and pin_policy_ok(pin.encode())
-    if onb_err or lfault.get("fired"):
+    if onb_err or lfault.get("fired") or comes_back_blank:
         good_pin = False
         pinkind = pinkind if pinkind != "valid" else "valid-but-undeterminable"
     if command == "onboard" and pre and good_pin:
@@ -323,7 +333,7 @@ def run_one(ch, cfg):
 
 ENUM_LABELS = ["platform", "command", "mode", "not-onboarded", "echo-bad", "pin-kind", "pin-via-prompt",
                "invalid-attempts-first", "answers", "anypin", "nounlock/noexec", "onboarded-query-fails",
-               "link-fault"]
+               "link-fault", "replug-comes-back-blank"]
 
 
 class _Enum:
@@ -331,7 +341,7 @@ class _Enum:
         import itertools
         # the two trailing zeros switch the seeded-only dimensions off (failing onboarded query, link
         # fault): an enumerated case is exactly the listed scenario
-        self.items = [list(c) + [0, 0] for c in itertools.product(*DIMS)]
+        self.items = [list(c) + [0, 0, 0] for c in itertools.product(*DIMS)]
 
     def __len__(self):
         return len(self.items)
